@@ -184,6 +184,8 @@ def run(ctx):
     rule_path_spelling(ctx)
     ctx.assume("salsa's own memoisation and revision logic are correct; lru=1 re-materialisation is deterministic (C16)")
     ctx.assume("callers announce disk changes through refresh_disk (contract of the session API)")
+    from . import c17
+    c17.rule_registry_atomic(ctx)
     return {}
 
 
